@@ -11,6 +11,7 @@ NUMS = [b"0", b"1", b"2", b"3", b"9", b"10", b"11", b"20", b"100", b"2147483647"
         b"9223372036854775806"]
 SMALL = [b"0", b"1", b"2", b"3", b"10"]
 LEADZ = [b"00", b"01", b"010", b"007"]
+NUGET_FLOAT = [b"*", b"a*", b"beta*", b"rc.*"]      # NuGet floating prerelease labels
 PRE_WORDS = [b"alpha", b"beta", b"rc", b"a", b"b", b"pre", b"Alpha", b"Beta", b"BETA", b"RC", b"Rc", b"x-y", b"dev", b"SNAPSHOT", b"b2", b"-", b"z", b"Z", b"A", b"1a", b"0a", b"2-beta", b"-x", b"--", b"7f3c2e1", b"a1", b"-a"]
 PRE_NUMS = [b"0", b"1", b"2", b"10", b"01", b"00", b"-1", b"+1", b"2147483647", b"2147483648", b"9223372036854775807",
             b"9223372036854775808", b"18446744073709551616", b"18446744073709551617", b"36893488147419103233",
@@ -45,6 +46,12 @@ def semver_like(rng, sysi, strict=False):
     parts = [num(rng, leadz) for _ in range(n)]
     if strict:
         parts = [p if p in SMALL or p in NUMS[:9] else b"1" for p in parts]
+    elif rng.random() < 0.08:
+        # wildcard components (accepted by Parse in several systems), also in the middle and first
+        i = rng.randrange(len(parts)) if rng.random() < 0.5 else len(parts) - 1
+        parts[i] = rng.choice([b"*", b"x", b"X"]) if sysi != 5 else b"*"
+        if rng.random() < 0.3 and i + 1 < len(parts):
+            parts[i + 1] = rng.choice([b"*", b"x", b"0", b"3"])
     s = b".".join(parts)
     if rng.random() < 0.45:
         k = rng.choice([1, 1, 2, 3])
@@ -52,6 +59,8 @@ def semver_like(rng, sysi, strict=False):
         for _ in range(k):
             if rng.random() < 0.5:
                 e = pick(rng, PRE_WORDS)
+                if sysi == 5 and not strict and rng.random() < 0.08:
+                    e = pick(rng, NUGET_FLOAT)
             else:
                 e = pick(rng, PRE_NUMS)
             if strict:
